@@ -165,6 +165,17 @@ func (c *Conn) Close() error {
 	return nil
 }
 
+// Rearm installs a new script for the next exchange on the same connection and clears the log.
+func (c *Conn) Rearm(s Script, cancel func()) {
+	c.mu.Lock()
+	defer c.mu.Unlock()
+	c.S = s
+	c.Cancel = cancel
+	c.pos, c.step, c.reads, c.idle = 0, 0, 0, 0
+	c.Log = nil
+	c.Writes = nil
+}
+
 // Delivered reports how many reply bytes have been handed over.
 func (c *Conn) Delivered() int { c.mu.Lock(); defer c.mu.Unlock(); return c.pos }
 
